@@ -114,4 +114,13 @@ theorem third_party_payload_was_attributed_to_the_target_before_the_fix :
 /-- the sender test stands in the Go text of this run, between the read and the emit -/
 theorem sender_test_tied_to_go_text : Gen.monitorTopicOrder = Order.monitorTopic := gen_monitorTopic_order
 
+/-- the pairwise channel to a peer belongs to the instance: in the Go text of this run its context
+derives from the channels' own, not from the caller's, and its subscription is closed when its monitor
+ends (after the `fix:` commit, finding F50: the channel died with the context of the FIRST store that
+connected to the peer — closing that store made the instance deaf to the peer's head exchanges for
+its other stores, `Send` on the other side still reporting success; and the node never left the
+pairwise topic. Replayed on the real adapter: `tone … twoctx`) -/
+theorem pairwise_channel_outlives_its_first_caller_tied_to_go_text :
+    Gen.connectCtxOrder = Order.connectCtx := gen_connectCtx_order
+
 end Orbit.C20
